@@ -409,6 +409,17 @@ pub fn run(tier: Tier) -> i32 {
     acc.merge(Acc::merge_all(accs));
     acc.note_n("scalars", scalars.len() as u64);
 
+    // (a') all strings of length <= 3 over the characters that any escaping scheme must treat
+    let crit: Vec<char> = vec!['\\', '"', '/', '\n', '\0', 'a', 'é', '\u{ffff}', '\u{10000}', '\u{7f}', '\t'];
+    let strs = util::strings_upto(&crit, if tier.thorough() { 4 } else { 3 });
+    let accs = util::par_fold(&strs, Acc::new, |acc, _i, s| {
+        check_value(acc, &json!(s), "critical-string");
+        check_value(acc, &json!({ s.clone(): [s.clone()], "k": s.clone() }), "critical-string-as-key");
+        acc.nontrivial += 1;
+    });
+    acc.merge(Acc::merge_all(accs));
+    acc.note_n("critical_strings", strs.len() as u64);
+
     // (b) grammar
     let l0 = leaves();
     let keys = key_alphabet();
